@@ -12,13 +12,14 @@ import (
 	"sort"
 	"strings"
 	"testing"
+	"time"
 
 	"github.com/gotid/god/lib/discov"
 	"github.com/gotid/god/lib/logx"
 	"verif.local/vk"
 )
 
-const c15Rule = "at quiescence (nothing pending, every watcher took a progress notification after its last event): set(Subscriber.Values()) == distinct values of the model etcd's keys under the subscriber's key, no duplicates; exclusive: value listed iff its most recent publisher key is still present (owner sets where the announcement order of one snapshot is unspecified); late joiner equals the model immediately after NewSubscriber returns; listener ran and its last run saw the final set whenever the set changed"
+const c15Rule = "at quiescence (nothing pending, every watch goroutine parked in its loop again): set(Subscriber.Values()) == distinct values of the model etcd's keys under the subscriber's key, no duplicates; exclusive: value listed iff its most recent publisher key is still present (owner sets where the announcement order of one snapshot is unspecified); late joiner equals the model immediately after NewSubscriber returns; listener ran and its last run saw the final set whenever the set changed"
 
 func c15Finish(m *vk.M, w *c15World, kinds map[string]int64, sampleEvery int) {
 	w.account(kinds)
@@ -43,6 +44,8 @@ func c15Finish(m *vk.M, w *c15World, kinds map[string]int64, sampleEvery int) {
 	w.dispose()
 }
 
+func c15Wall(m *vk.M, t0 time.Time) { m.Extra("test_wall_s", time.Since(t0).Seconds()) }
+
 func c15FlushKinds(m *vk.M, kinds map[string]int64) {
 	var ks []string
 	for k, v := range kinds {
@@ -62,7 +65,8 @@ func TestVerifC15Systematic(t *testing.T) {
 	logx.Disable()
 	m := vk.New(t, "C15", "complete family: words of length L over {toggle k1(a), toggle k2(a), toggle k3(b), pump, reload, late-join} after attaching a plain and an exclusive subscriber (optionally with k1 pre-registered), closed by pump or reload; "+c15Rule)
 	defer m.Done()
-	L := vk.N(5, 6)
+	defer c15Wall(m, time.Now())
+	L := vk.N(4, 6)
 	vals := []string{"", "a:80", "a:80", "b:80"}
 	alphabet := 6
 	total := 1
@@ -250,10 +254,13 @@ func (g *c15Gen) step(i int) {
 		}
 	default:
 		if !g.hold {
-			if r.Intn(2) == 0 {
+			switch r.Intn(3) {
+			case 0:
 				w.exec(c15Op{Op: "wclose", N: r.Intn(8)})
-			} else {
+			case 1:
 				w.exec(c15Op{Op: "wcancel", N: r.Intn(8)})
+			default:
+				w.exec(c15Op{Op: "progress"})
 			}
 		}
 	}
@@ -329,6 +336,7 @@ func TestVerifC15Histories(t *testing.T) {
 	logx.Disable()
 	m := vk.New(t, "C15", "seeded random histories of put/del (delivered or missed), pump, reload, attach, broken watch stream over 1-2 service keys, 3-7 keys and 2-4 values per key (values shared); "+c15Rule)
 	defer m.Done()
+	defer c15Wall(m, time.Now())
 	c15RunRandom(t, m, "hist", vk.N(2000, 60000), false)
 }
 
@@ -340,6 +348,7 @@ func TestVerifC15Reconnect(t *testing.T) {
 	logx.Disable()
 	m := vk.New(t, "C15", "as Histories, with connection losses/recoveries fed to stateWatcher.updateState (scripted etcdConn): a Ready after TransientFailure/Shutdown must start a reload; "+c15Rule)
 	defer m.Done()
+	defer c15Wall(m, time.Now())
 	c15RunRandom(t, m, "reconnect", vk.N(600, 15000), true)
 }
 
@@ -349,6 +358,7 @@ func TestVerifC15GetRetry(t *testing.T) {
 	logx.Disable()
 	m := vk.New(t, "C15", "reload whose first Get fails (injected): after the retry "+c15Rule)
 	defer m.Done()
+	defer c15Wall(m, time.Now())
 	kinds := map[string]int64{}
 	n := vk.N(2, 12)
 	for idx := 1; idx <= n; idx++ {
@@ -387,6 +397,7 @@ func TestVerifC15EndToEnd(t *testing.T) {
 	logx.Disable()
 	m := vk.New(t, "C15", "publishers (discov.Publisher KeepAlive/Stop/Pause/Resume) produce the keys; "+c15Rule)
 	defer m.Done()
+	defer c15Wall(m, time.Now())
 	kinds := map[string]int64{}
 	n := vk.N(60, 1500)
 	for idx := 1; idx <= n; idx++ {
